@@ -93,12 +93,15 @@ theorem faultSite_text (c : RCtx) (line : Nat) (src : Bytes) (s : RS) :
     (traceNode c (.text line src) s).calls = List.replicate (renderNode c (.text line src) s).calls.length (some ⟨line, true⟩) := by
   unfold traceNode; rfl
 
-/-- …while an object runs: at the object -/
+/-- …while an object runs: at the object — every call it issues through `WriteVerbatim`: the flush of the text
+    that was pending before the value (issued by the empty `Write` that drops a pending right trim) and the flush of
+    each chunk of the value -/
 theorem faultSite_obj (c : RCtx) (line : Nat) (e : Expr) (s : RS) :
     (traceNode c (.obj line e) s).calls = List.replicate (renderNode c (.obj line e) s).calls.length (some ⟨line, true⟩) := by
   unfold traceNode; rfl
 
-/-- a raw block has no location of its own -/
+/-- a raw block has no location of its own: every call it issues through `WriteVerbatim` (the flush of the text
+    pending before the body, then one flush per non-empty slice) carries the invalid location -/
 theorem faultSite_raw (c : RCtx) (slices : List Bytes) (s : RS) :
     (traceNode c (.raw slices) s).calls = List.replicate (renderNode c (.raw slices) s).calls.length (some invalidLoc) := by
   unfold traceNode; rfl
@@ -187,28 +190,29 @@ theorem fault_sites_of_root (c : RCtx) (root : List Node) (env : Env) :
 
 /-! ### A concrete instance
 
-`a{% if … %}{% raw %}x{% endraw %}⏎b{% endif %}⏎c` compiled with the `if` at line 3, its second text at line 4:
-the fault-free render makes four calls — `a` (flushed when the raw block writes), `x` (flushed by the text `b`),
-`b` (flushed at the end of the block body), `c` (the final flush). A failure of the first is reported at the `if`
-tag (line 3: the raw block has no location), of the second at the text (line 4), of the third at the `if` tag
-again (the flush of the block body), of the last at line 0 without a path (the final flush, top level). -/
-def c20ExRoot : List Node := [.text 1 [97], .ifB 3 [(.always, [.raw [[120]], .text 4 [98]])], .text 5 [99]]
+`a{% if … %}⏎b{% raw %}x{% endraw %}{% endif %}⏎c` compiled with the `if` at line 3, the text inside it at line 4:
+the fault-free render makes four calls — `a` (flushed when the text `b` is written), `b` (flushed by the raw block
+before it writes: the empty `Write` of `WriteVerbatim`), `x` (flushed by the raw block itself, at once), `c` (the
+final flush; the flush at the end of the block body finds nothing pending). A failure of the first is reported at
+the text (line 4), of the second and third at the `if` tag (line 3: the raw block has no location), of the last at
+line 0 without a path (the final flush, top level). -/
+def c20ExRoot : List Node := [.text 1 [97], .ifB 3 [(.always, [.text 4 [98], .raw [[120]]])], .text 5 [99]]
 def c20ExFs : FS := ⟨fun _ => .notExist, fun _ => none⟩
 
-theorem c20Ex_calls : (frender trivPrims trivOut {} c20ExFs 1 c20ExRoot []).calls = [[97], [120], [98], [99]] := by
+theorem c20Ex_calls : (frender trivPrims trivOut {} c20ExFs 1 c20ExRoot []).calls = [[97], [98], [120], [99]] := by
   simp [c20ExRoot, frender, renderRoot, renderList, renderNode, renderBranches, renderBlockBody, evalCond, wrapAt, wrapFailAt,
-    M.mapFail, M.bind, M.pure, M.getEnv, writeM, writeAllM, flushM, Prog.bind, Prog.mapFail, Prog.calls, statusToProg, bind, pure,
+    M.mapFail, M.bind, M.pure, M.getEnv, writeM, writeAllM, writeVerbatimM, flushM, Prog.bind, Prog.mapFail, Prog.calls, statusToProg, bind, pure,
     mkCtx, Status.wrap]
 
 theorem c20Ex_sites : (frender trivPrims trivOut {} c20ExFs 1 c20ExRoot []).faultErrs =
-    [some (.located ⟨3, true, .io, .byCause⟩), some (.located ⟨4, true, .io, .byCause⟩),
+    [some (.located ⟨4, true, .io, .byCause⟩), some (.located ⟨3, true, .io, .byCause⟩),
      some (.located ⟨3, true, .io, .byCause⟩), some (.located ⟨0, false, .io, .byCause⟩)] := by
   simp [c20ExRoot, frender, renderRoot, renderList, renderNode, renderBranches, renderBlockBody, evalCond, wrapAt, wrapFailAt,
-    M.mapFail, M.bind, M.pure, M.getEnv, writeM, writeAllM, flushM, Prog.bind, Prog.mapFail, Prog.faultErrs, statusToProg, bind, pure,
+    M.mapFail, M.bind, M.pure, M.getEnv, writeM, writeAllM, writeVerbatimM, flushM, Prog.bind, Prog.mapFail, Prog.faultErrs, statusToProg, bind, pure,
     mkCtx, Status.wrap, wrapError, invalidLoc, Loc.isZero]
 
 /-- the theorem on this instance: the hypothesis holds for `k = 0, 1, 2, 3`, and the sites are those above -/
-example : faultSites (mkCtx trivPrims trivOut {} c20ExFs 1) c20ExRoot [] = [⟨3, true⟩, ⟨4, true⟩, ⟨3, true⟩, ⟨0, false⟩] := by
+example : faultSites (mkCtx trivPrims trivOut {} c20ExFs 1) c20ExRoot [] = [⟨4, true⟩, ⟨3, true⟩, ⟨3, true⟩, ⟨0, false⟩] := by
   have h := faultErrs_are_faultSites trivPrims trivOut {} c20ExFs 1 c20ExRoot []
   rw [c20Ex_sites] at h
   have hinj : ∀ a b : Loc, (some (RawErr.located ⟨a.line, a.pathSet, .io, .byCause⟩) : Option RawErr) =
@@ -228,6 +232,6 @@ example : ∀ l ∈ faultSites (mkCtx trivPrims trivOut {} c20ExFs 1) c20ExRoot 
   fault_site_in_tree trivPrims trivOut {} c20ExFs 1 c20ExRoot [] (Or.inr (by decide))
 
 /-- `located_node_fault_sites` on the `if` block of this instance: every write below it is located at line 3 or 4 -/
-example (c : RCtx) (s : RS) : ∀ l ∈ (traceNode c (.ifB 3 [(.always, [.raw [[120]], .text 4 [98]])]) s).calls,
-    ∃ x ∈ (Node.ifB 3 [(.always, [.raw [[120]], .text 4 [98]])]).lines, l = some ⟨x, true⟩ :=
+example (c : RCtx) (s : RS) : ∀ l ∈ (traceNode c (.ifB 3 [(.always, [.text 4 [98], .raw [[120]]])]) s).calls,
+    ∃ x ∈ (Node.ifB 3 [(.always, [.text 4 [98], .raw [[120]]])]).lines, l = some ⟨x, true⟩ :=
   located_node_fault_sites c _ s rfl (Or.inr (by decide))
